@@ -138,6 +138,10 @@ def judge(prop, f, impl, model, spec):
         return j
     if prop in ("C01", "C02", "C03"):
         judge_nodeset(j, f, impl, model, spec)
+    elif prop == "C11" and kind == "wide":
+        if impl != spec:
+            j.viol = "union over a very wide document (extra = N;i;j: i-th and j-th of N like children; elements, attributes, sequence form): the package counts %s nodes, XPath %s" % (impl, spec)
+        j.nontrivial = True
     elif prop == "C11":
         judge_nodeset(j, f, impl, model, spec, dup_free=True)
     elif prop == "C04":
@@ -157,6 +161,12 @@ def judge(prop, f, impl, model, spec):
             j.viol = "history run failed: " + impl
         else:
             cmp_model(j, impl, model)
+    elif prop == "C06" and kind == "rxcache":
+        if not impl.startswith("rx:"):
+            j.viol = "a Compile in a history of compilations over a small pattern cache did not return (or crashed): " + impl[:200]
+        elif impl != model:
+            j.mismatch = "pattern-cache history differs from the verified cache model: impl=%s model=%s" % (impl[:300], model[:300])
+        j.nontrivial = True
     elif prop == "C06":
         if impl not in ("ok", "cerr"):
             j.viol = "Compile/MustCompile did not return exactly one of (expr, error): " + impl
